@@ -18,7 +18,15 @@ pub fn worker(path: &str) {
     runner::quiet_panics();
     let v: serde_json::Value = serde_json::from_str(&std::fs::read_to_string(path).unwrap()).unwrap();
     let opts: Opts = serde_json::from_value(v["opts"].clone()).unwrap();
+    // the same files twice in one process: a call that ended in an error or a panic must leave the library
+    // able to answer the next call on the same paths (and to answer it alike)
+    let first = runner::generate(v["schema"].as_str().unwrap(), v["ext"].as_str().unwrap(), v["query"].as_str().unwrap(), &opts);
     let oc = runner::generate(v["schema"].as_str().unwrap(), v["ext"].as_str().unwrap(), v["query"].as_str().unwrap(), &opts);
+    if first.class() != oc.class() {
+        println!("changed-on-repeat:{}->{}", first.class(), oc.class());
+        runner::cleanup_scratch();
+        return;
+    }
     let class = match &oc {
         runner::Outcome::Ok(ts) => {
             if crate::items::parse_tokens(ts).is_ok() {
@@ -327,7 +335,7 @@ pub fn run(outdir: &Path, tier: &str, seed: u64, shards: usize, _replay: Option<
         preludes: vec![],
     };
     cs.write(outdir, shards, json!({
-        "rule": "adversarial grammar, each input in its own worker process (exit status, signal, 10 s wall limit): fragment-spread cycles of length 1-6 on an object, an interface and a union, with and without __typename, the spread at the top level of the fragment / under a field / under an inline fragment; fragments that reach a cycle without being on it; input-type cycles incl. non-null ones; selection nesting 8/32/64 and raw 512 / 2000; type expressions of depth 64 / 1000; an interface without implementors; self- and mutually referential unions; syntactically broken documents and schemas. Survivors are also compared with the model's outcome class.",
+        "rule": "adversarial grammar, each input in its own worker process, generated twice there through the path interface (exit status, signal, 10 s wall limit, same outcome class on repeat): fragment-spread cycles of length 1-6 on an object, an interface and a union, with and without __typename, the spread at the top level of the fragment / under a field / under an inline fragment; fragments that reach a cycle without being on it; input-type cycles incl. non-null ones; selection nesting 8/32/64 and raw 512 / 2000; type expressions of depth 64 / 1000; an interface without implementors; self- and mutually referential unions; syntactically broken documents and schemas. Survivors are also compared with the model's outcome class.",
         "distribution": dist, "samples": samples,
     }));
     runner::cleanup_scratch();
